@@ -41,7 +41,7 @@ impl<T: Elem + SatisfyTraits<Tr>, M: MX, Tr: TrX + ?Sized> World<T, M, Tr> {
         let World { a, b, ma, mb, .. } = self;
         let b = b.as_mut().unwrap();
         let before = elem::with_reg(|r| (r.clones + r.zst_clones, r.drops + r.zst_drops));
-        let mut got: Vec<u16> = Vec::new();
+        let mut got: Vec<u16> = Vec::with_capacity(8);
         let g = &mut got;
         // (source id, what happens to the source in A afterwards)
         let src_id = match ma[if src == 2 { len - 1 } else { j }] { Mv::Id(i) => i, Mv::CloneOf(p) => p };
